@@ -246,9 +246,11 @@ def h17c(c, mode="P"):
             ld = {"LIMIT-CLASSIC": "CLASSIC", "LIMIT-FINEST": "FINEST", "LIMIT-LINE": "LINE_RANGE"}[kind]
             lri = None
             if ld == "LINE_RANGE":
-                iv = c.choose("line_interval", [1.0, 0.5, "from-2.5"])
+                iv = c.choose("line_interval", [1.0, 0.5, "from-2.5", "max-off-grid"])
                 lri = {1.0: cm.NS(min_unit_value=0.5, max_unit_value=6.5, interval=1.0), 0.5: cm.NS(min_unit_value=0, max_unit_value=3, interval=0.5),
-                       "from-2.5": cm.NS(min_unit_value=2.5, max_unit_value=6.5, interval=1.0)}[iv]
+                       "from-2.5": cm.NS(min_unit_value=2.5, max_unit_value=6.5, interval=1.0),
+                       # (a range whose width is not a multiple of the interval: its maximum is not a line)
+                       "max-off-grid": cm.NS(min_unit_value=0, max_unit_value=6.5, interval=1.0)}[iv]
                 price = c.pick("line", [-0.5, 0, 0.25, 0.5, 1.0, 1.5, 2.5, 3.0, 3.5, 6.5, 7.5])
             o = cm.mk_limit(strategy, side, price, size, ladder_def=ld, line_range_info=lri, trade=tr)
         elif kind == "LOC":
@@ -271,6 +273,8 @@ def h17c(c, mode="P"):
                 on = c.Or(*[price == 0.5 + k for k in range(7)])
             elif iv == 0.5:
                 on = c.Or(*[price == 0.5 * k for k in range(7)])
+            elif iv == "max-off-grid":
+                on = c.Or(*[price == 0.0 + k for k in range(7)])
             else:
                 on = c.Or(*[price == 2.5 + k for k in range(5)])
         elif kind == "BETDAQ":
